@@ -1,12 +1,54 @@
 (* C17 property theorems.  Nothing but statements, `exact`, and Print Assumptions.
    Model: Broadcast.v (do_step / run over step lists); proofs: Proofs_Broadcast.v.
-   All statements quantify over every step list (every schedule of emits, connects,
-   disconnects, socket failures/recoveries and IO-loop callback runs) and every client. *)
+   All statements quantify over every step list (every schedule of emits (snapshots), single
+   hand-overs of a callback from the actor thread to the IO loop, connects, disconnects,
+   socket failures/recoveries and IO-loop callback runs) and every client. *)
 From Coq Require Import ZArith List Bool.
 From Common Require Import Str.
 From Http Require Import Broadcast Proofs_Broadcast.
 Import ListNotations.
 Open Scope Z_scope.
+
+(* T1 as liveness-over-complete-runs, for EVERY client (faulty or not) and every schedule:
+   each event emitted while c was connected gets exactly one write attempt on c, in emission
+   order - at every moment attempted ++ in-flight is exactly that sequence, and in a complete
+   run (nothing in flight) all of it has been attempted.  An attempt succeeds iff c's
+   connection is open and its socket is not failing at that moment, and the deliveries are
+   exactly the successful attempts. *)
+Theorem C17_every_event_attempted_exactly_once : forall l c,
+  att c (run l) ++ pending c (run l) = sent c l.
+Proof. exact attempted_exactly_once. Qed.
+Print Assumptions C17_every_event_attempted_exactly_once.
+
+Theorem C17_all_attempted_in_complete_run : forall l c,
+  idle (run l) = true -> att c (run l) = sent c l.
+Proof. exact attempted_all_when_idle. Qed.
+Print Assumptions C17_all_attempted_in_complete_run.
+
+Theorem C17_all_attempted_after_drain : forall l c, att c (drained_run l) = sent c l.
+Proof. exact attempted_all_drained. Qed.
+Print Assumptions C17_all_attempted_after_drain.
+
+Theorem C17_attempt_outcome : forall s c m q,
+  queue s = (c, m) :: q ->
+  attempted (do_step s RunCallback)
+  = attempted s ++ [((c, m), negb (memz c (closed s) || memz c (failing s)))].
+Proof. exact attempt_outcome. Qed.
+Print Assumptions C17_attempt_outcome.
+
+Theorem C17_delivered_are_the_successful_attempts : forall l,
+  delivered (run l) = map fst (filter snd (attempted (run l))).
+Proof. exact delivered_are_successful_attempts. Qed.
+Print Assumptions C17_delivered_are_the_successful_attempts.
+
+Theorem C17_received_are_attempts : forall l c, subseq (recv c (run l)) (att c (run l)).
+Proof. exact recv_subseq_att. Qed.
+Print Assumptions C17_received_are_attempts.
+
+Theorem C17_healthy_every_attempt_delivered : forall l c,
+  no_faults c l = true -> recv c (run l) = att c (run l).
+Proof. exact healthy_recv_att. Qed.
+Print Assumptions C17_healthy_every_attempt_delivered.
 
 (* T1 exactly_once_in_order, part 1: what a client received is, position by position, a
    subsequence of the events emitted while it was connected (so: emission order, and no
@@ -33,7 +75,7 @@ Proof. exact healthy_nothing_lost. Qed.
 Print Assumptions C17_healthy_nothing_lost.
 
 Theorem C17_healthy_complete : forall l c,
-  no_faults c l = true -> queue (run l) = [] -> recv c (run l) = sent c l.
+  no_faults c l = true -> idle (run l) = true -> recv c (run l) = sent c l.
 Proof. exact healthy_complete. Qed.
 Print Assumptions C17_healthy_complete.
 
@@ -42,8 +84,8 @@ Theorem C17_healthy_complete_after_drain : forall l c,
 Proof. exact healthy_complete_drained. Qed.
 Print Assumptions C17_healthy_complete_after_drain.
 
-Theorem C17_drain_empties_the_loop : forall l, queue (drained_run l) = [].
-Proof. exact drained_queue. Qed.
+Theorem C17_drain_empties_the_loop : forall l, idle (drained_run l) = true.
+Proof. exact drained_idle. Qed.
 Print Assumptions C17_drain_empties_the_loop.
 
 (* T1 part 3: from any point at which the socket of c works (not failing, not closed) and
@@ -64,13 +106,13 @@ Print Assumptions C17_working_socket_nothing_lost.
 
 Theorem C17_complete_after_recovery : forall l1 l2 c,
   memz c (clients (run l1)) = true -> no_faults c l2 = true ->
-  queue (run (l1 ++ SocketRecovers c :: l2)) = [] ->
+  idle (run (l1 ++ SocketRecovers c :: l2)) = true ->
   exists before, recv c (run (l1 ++ SocketRecovers c :: l2)) = before ++ emitted l2.
 Proof. exact recovered_complete. Qed.
 Print Assumptions C17_complete_after_recovery.
 
 Theorem C17_monitor_recovered_predicate_holds : forall l c,
-  queue (run l) = [] -> t1_recovered_ok c l (recv c (run l)) = true.
+  idle (run l) = true -> t1_recovered_ok c l (recv c (run l)) = true.
 Proof. exact t1_recovered_ok_holds. Qed.
 Print Assumptions C17_monitor_recovered_predicate_holds.
 
@@ -150,6 +192,6 @@ Proof. exact t1_log_ok_holds. Qed.
 Print Assumptions C17_monitor_log_predicate_holds.
 
 Theorem C17_monitor_complete_predicate_holds : forall l c,
-  queue (run l) = [] -> t1_complete_ok c l (recv c (run l)) = true.
+  idle (run l) = true -> t1_complete_ok c l (recv c (run l)) = true.
 Proof. exact t1_complete_ok_holds. Qed.
 Print Assumptions C17_monitor_complete_predicate_holds.
